@@ -4,6 +4,7 @@ from .rules import c17 as R_c17
 from .rules import c11 as R_c11
 from .rules import c08 as R_c08
 from .rules import c05 as R_c05
+from .rules import cas as R_cas
 
 Q = ("quick", "thorough")
 T = ("thorough",)
@@ -88,11 +89,62 @@ PROPS = {
             "(R-MAXLEN) cpu modules with '*'/'&' specs set disassemble.maxlen explicitly; (R-FMT) every spec has LEN>=8 "
             "(length >= 1). Does NOT decide equality of d(b), d(b[:n]), d(b[:n]+t) for all inputs nor over-reads inside ispec.decode."
         ),
-        rules=[(R_c05.r_pair, Q), (R_c05.r_tailchk, Q), (R_spec.r_maxlen, Q), (R_spec.r_fmt, Q)],
+        rules=[(R_c05.r_pair, Q), (R_c05.r_tailchk, Q), (R_c11.r_rollback, Q), (R_spec.r_maxlen, Q), (R_spec.r_fmt, Q)],
         level_text="partial: def-use pairing and dominance on the CFG of all 221 tail-taking functions (69 with direct reads, 65 bounded slices) of every ISA; the tests decode a handful of ModRM forms and never a truncated immediate",
         level_note="Trusted: tail variables are tracked by the enumerated rebinding idioms (pack(), open slices, tuple split, helper return); crysp Bits slicing semantics (short slices do not raise); a piece that is only inspected in tests is look-ahead (undecided, not alarmed).",
         technique="def-use pairing + dominator/must-pass-through queries on statement CFGs, table lint of cpu modules",
         trusted_base=["vstat.cfg", "idiom tables in vstat/rules/c05.py"],
         assumptions=["variable tails are only delivered through (*) directives"],
+    ),
+    "C01": dict(
+        title="Expression algebra preserves bit-vector meaning",
+        explanation=(
+            "Decides that every table-driven rewrite and dispatch of cas/expressions.py is algebraically valid, by comparing the "
+            "tables extracted from the AST with a vendored reference table of fixed-width bit-vector identities "
+            "(ref/bv_identities.json): identity/annihilator/idempotence/self-inverse guarded returns of eqn2_helpers, the 1-bit "
+            "==/!= rewrites, the comparison-negation dict, sign composition of nested +/-, the operator-symbol <-> Python "
+            "operator <-> cst implementation round trip, and that operators declared unsigned are implemented unsigned; plus "
+            "(R-WIDTH) that no rewrite returns an operand or 1-bit literal for an operator of different result width. Does NOT "
+            "decide constant-folding arithmetic, mask->slice, shift->composition, reassociation, comp bookkeeping or evaluation."
+        ),
+        rules=[(R_cas.r_algtab, Q), (R_cas.r_width, Q)],
+        level_text="partial: all 94 extracted table rows (guarded returns, negation pairs, sign composition, 23 operator symbols x round trip, cst folding operators) are compared with the reference; exhaustive over the rows, which the tests exercise only through a dozen expressions",
+        level_note="Trusted: ref/bv_identities.json (hand-written from the operator definitions); the guarded-return extractor recognises conjunctions of e.X._is_K, e.r.value == k, e.op.symbol in/==, e.r.size == 1, str(e.l)==str(e.r); unrecognised returns are not decided and a floor on recognised rows turns mass non-recognition into an analysis error.",
+        technique="table extraction from the AST compared with a vendored reference table (table subset-of reference)",
+        trusted_base=["ref/bv_identities.json", "guarded-return extractor in vstat/rules/cas.py"],
+        assumptions=["the two `ext == 0` rules are a documented assumption of the code base and out of C01's quantifier"],
+        exhaustive=True,
+    ),
+    "C12": dict(
+        title="Every expression has the width its construction dictates",
+        explanation=(
+            "Decides: (R-WIDTH) rewrites never return an operand or fixed-width literal in place of a node of different width "
+            "(width classes read from op.__init__/_operator.__init__); (R-SIZEIMM) `.size` of an expression is assigned only in "
+            "constructors/__setstate__ within cas/expressions.py, cas/mapper.py, system/memory.py, system/core.py, and every exp "
+            "subclass constructor assigns size and sf on every normal path. Does NOT decide comp tiling, slice arithmetic, widths through eval."
+        ),
+        rules=[(R_cas.r_width, Q), (R_cas.r_sizeimm, Q)],
+        level_text="partial: guarded-return x width-class table check over the rewrite helpers, who-may-write scan of `.size`, definite-assignment on the CFG of the 16 exp constructors",
+        level_note="Trusted: provenance classification of receivers (parameter / read-out-of-parameter / fresh constructor result / unknown); unknown receivers are undecided. Stores of `.size` in amoco/arch are handled under C10 (R-SHMUT).",
+        technique="guarded-return x table check, who-may-write effect scan, definite assignment on CFG",
+        trusted_base=["vstat.cfg", "provenance classifier in vstat/rules/cas.py"],
+        assumptions=[],
+    ),
+    "C13": dict(
+        title="Expressions, maps and memory behave as values",
+        explanation=(
+            "Decides the value clause and the pickle clause structurally: (R-OPPURE) operator implementations, eval methods, the "
+            "functions in the OP_* tables and _operator.__call__ never store to an attribute of a parameter (including self) or of "
+            "an object read out of a parameter, outside the declared mutators; in-place simplification never writes a field of a "
+            "child node; (R-SIZEIMM) widths are never re-assigned; (R-SLOTSTATE) __setstate__ restores every slot of the MRO, "
+            "__getstate__/__setstate__ keys agree, dict-bearing subclasses of slot-only __setstate__ lose nothing. Does NOT decide "
+            "equivalence of in-place simplification nor printing/equality after unpickling."
+        ),
+        rules=[(R_cas.r_oppure, Q), (R_cas.r_sizeimm, Q), (R_cas.r_slotstate, Q)],
+        level_text="partial: effect analysis over the 203 non-mutator methods/functions of the expression algebra and slot/state table comparison for the 9 classes with custom pickling",
+        level_note="Trusted: receiver provenance classifier; stores on results of eval/slicing/operators (possibly shared, e.g. slc.eval/mem.eval res.sf) are listed as undecided, not alarmed; the save/restore idiom of cst.signextend is accepted.",
+        technique="effect (attribute-store) analysis with receiver provenance + table<->table comparison of pickling state",
+        trusted_base=["provenance classifier and declared-mutator table in vstat/rules/cas.py"],
+        assumptions=[],
     ),
 }
